@@ -42,6 +42,8 @@ H.KNOWN_IDS.update(f["id"] for f in KN["findings"])
 def work(i):
     ob, st, vname = PEND[i]
     s, b, t, m = VCM.solve(ob.pc, ob.goal, a.timeout, hints=st.hints)
+    if ob.kind == "cover":
+        return (i, {"refuted": "proved", "proved": "unknown"}.get(s, "unknown"), b, t)
     if s == "refuted" and ob.known:
         act = [c for (kid, c) in ob.known if kid in H.KNOWN_IDS]
         if act:
